@@ -85,6 +85,16 @@ T('C09',
   "Bounded exhaustive model checking of posterior post-processing: 7 sampler letters (nestle, MultiNest multimodal / not, PolyChord clustered / not) x n<=3 (thorough 5) samples x every weight vector of {0,1,2,3}^n minus all-zero (ties and zeros) x per-dimension value permutations x fitted d=1..3 x 4 derived selections x every 2-mode split; stored traces and weights must be the double's arrays element for element, value/sigma_m/sigma_p the weighted 50, 50-16, 84-50 % quantiles, MAP the heaviest sample, mean the weighted mean, the stored spectrum the independent model at the MAP binned by the overlap reference, profiles those of the median, derived traces one entry per sample in sample order.",
   "MultiNest MAP/mean/sigma are the sampler's own statistics - pass-through only; the PolyChord double ranks likelihood like weight; one process (the rank split is C18); sigma_fraction=1; external samplers replaced by doubles")
 
+T('C08',
+  'exhaustive enumeration of prior class x every ordered pair of bound letters (both orders) / every (mean,std) x container; lin_* forms vs their log10 form; text grammar (name form x keyword combination/order x bracket x whitespace x number format x values) vs direct construction; default priors from mode/bounds through Optimizer.compile_params and update_model; full 12-point u lattice against an independent inverse-CDF reference (bisection on math.erfc)',
+  'Bounded exhaustive model checking on the real prior classes: every case of the declared lattices is executed and compared with a reference written from the statement (uniform lo+u(hi-lo) whatever the order of the bounds, normal quantile by bisection on erfc, 10**x back-transform, lin_* = log10); monotone over the sorted u lattice; text-built, directly built and default priors must be the same object in class, params, boundaries and samples; unknown names are rejected.',
+  'values only on the declared lattices (|bounds|<=1e3, std>=1e-3, 12 u points); scipy/numpy trusted; Gaussian boundaries() only required to be an ordered finite pair; positional-argument texts must equal direct construction or be rejected; small-scope hypothesis')
+
+T('C12',
+  'exhaustive enumeration per built-in profile family of layer count x pressure grid x structural letters (node count, node-pressure/surface-top/slope letters, control-point count, file layout, Guillot parameters on and outside bounds, constructor vs fitting setters) with every arrangement of {300,1000,2500} K on the controls and every smoothing window; invariants + Guillot closed form with an own E2 implementation; full sweep N=2..60 (thorough 2..200) x windows 0..100',
+  'Bounded exhaustive model checking on the real temperature-profile classes: every returned profile must have shape (N,), be finite, positive, inside the range of its controls and constant for equal controls; Guillot must match the published closed form (reference with own series/continued-fraction E2); parameter sets the statement calls unphysical, or for which the closed form is not a positive real, must raise an InvalidModelException.',
+  'windows 0..100 %, temperatures 300..2500 K, N<=200; range slack 1e-9*max (cumulative-sum rounding); equal node pressures treated as not ordered; a slope exactly at the limit may go either way; Guillot tolerance rtol 1e-9 + forward rounding bound; numpy/scipy trusted; small-scope hypothesis; three Guillot signatures are listed known findings')
+
 
 def main():
     props = [json.loads(l) for l in open(os.path.join(VERIF, 'properties.jsonl'))]
